@@ -170,3 +170,175 @@ pub fn run(o: &crate::Opts) {
         ),
     );
 }
+
+// ------------------------------------------------------------------ C20T: the debugger's line
+// editor on a real (pseudo-)terminal
+//
+// `lace debug t.asm --minimal` with a pty on stdin: keys are typed as the byte sequences a
+// terminal sends (UTF-8, DEL, CSI sequences for arrows / Ctrl+arrows / Delete, CR for Enter),
+// decoded by crossterm and `term::Key::try_from`, edited by `Terminal::handle_key`, split by
+// `get_next_command`, parsed and run by the debugger.  Observed: the `echo` outputs whose text
+// starts with `@` (stderr) and the history file afterwards.  After every Enter the harness waits
+// until the debugger is quiet again (it is then back in raw mode, waiting for a key), so no
+// control character is ever typed while the terminal is in cooked mode.
+
+use lace::verif::Key;
+use std::sync::{Arc, Mutex};
+
+pub fn key_bytes(k: &Key) -> Vec<u8> {
+    match k {
+        Key::Char(c) => c.to_string().into_bytes(),
+        Key::Backspace => vec![0x7f],
+        Key::Delete => b"\x1b[3~".to_vec(),
+        Key::Left => b"\x1b[D".to_vec(),
+        Key::Right => b"\x1b[C".to_vec(),
+        Key::Up => b"\x1b[A".to_vec(),
+        Key::Down => b"\x1b[B".to_vec(),
+        Key::CtrlLeft => b"\x1b[1;5D".to_vec(),
+        Key::CtrlRight => b"\x1b[1;5C".to_vec(),
+        Key::Enter => vec![b'\r'],
+    }
+}
+
+fn strip_ansi(b: &[u8]) -> Vec<u8> {
+    let mut out = Vec::with_capacity(b.len());
+    let mut i = 0;
+    while i < b.len() {
+        if b[i] == 0x1b && i + 1 < b.len() && b[i + 1] == b'[' {
+            i += 2;
+            while i < b.len() && !(0x40..=0x7e).contains(&b[i]) {
+                i += 1;
+            }
+            i += 1;
+        } else {
+            out.push(b[i]);
+            i += 1;
+        }
+    }
+    out
+}
+
+fn collect(mut r: impl Read + Send + 'static) -> Arc<Mutex<Vec<u8>>> {
+    let buf: Arc<Mutex<Vec<u8>>> = Arc::new(Mutex::new(Vec::new()));
+    let b2 = buf.clone();
+    std::thread::spawn(move || {
+        let mut chunk = [0u8; 4096];
+        loop {
+            match r.read(&mut chunk) {
+                Ok(0) | Err(_) => break,
+                Ok(n) => b2.lock().unwrap().extend_from_slice(&chunk[..n]),
+            }
+        }
+    });
+    buf
+}
+
+/// Wait until `buf` has not grown for `quiet_ms` (and, if given, contains `needle`), at most `max_ms`.
+fn wait_quiet(buf: &Arc<Mutex<Vec<u8>>>, needle: Option<&[u8]>, quiet_ms: u64, max_ms: u64, child: &mut std::process::Child) {
+    let t0 = Instant::now();
+    let mut last = buf.lock().unwrap().len();
+    let mut since = Instant::now();
+    loop {
+        std::thread::sleep(Duration::from_millis(10));
+        if let Ok(Some(_)) = child.try_wait() {
+            return;
+        }
+        let (len, has) = {
+            let g = buf.lock().unwrap();
+            (g.len(), needle.map_or(true, |n| g.windows(n.len()).any(|w| w == n)))
+        };
+        if len != last {
+            last = len;
+            since = Instant::now();
+        }
+        if (has && since.elapsed() > Duration::from_millis(quiet_ms)) || t0.elapsed() > Duration::from_millis(max_ms) {
+            return;
+        }
+    }
+}
+
+fn items(v: &[String]) -> String {
+    if v.is_empty() {
+        "-".into()
+    } else {
+        v.iter().map(|s| if s.is_empty() { ".".to_string() } else { hex(s.as_bytes()) }).collect::<Vec<_>>().join(",")
+    }
+}
+
+/// One terminal session of the debugger; answer `echo=<items> hist=<items>`.
+pub fn debug_session(dir: &std::path::Path, hist: &[String], keys: &[Key]) -> String {
+    let cache = dir.join("cache");
+    let _ = std::fs::remove_dir_all(&cache);
+    std::fs::create_dir_all(&cache).unwrap();
+    let hfile = cache.join("lace-debugger-history");
+    let mut h = String::new();
+    for l in hist {
+        h.push_str(l);
+        h.push('\n');
+    }
+    std::fs::write(&hfile, h).unwrap();
+    std::fs::write(dir.join("t.asm"), ".orig x3000\nhalt\n").unwrap();
+    let (mut master, slave) = unsafe {
+        let (mut m, mut s) = (0i32, 0i32);
+        let rc = openpty(&mut m, &mut s, std::ptr::null_mut(), std::ptr::null(), std::ptr::null());
+        assert!(rc == 0, "openpty failed");
+        (File::from_raw_fd(m), File::from_raw_fd(s))
+    };
+    let mut child = Command::new(lace_bin())
+        .args(["debug", "t.asm", "--minimal"])
+        .current_dir(dir)
+        .env("NO_COLOR", "1")
+        .env("XDG_CACHE_HOME", &cache)
+        .env("HOME", dir)
+        .stdin(Stdio::from(slave))
+        .stdout(Stdio::piped())
+        .stderr(Stdio::piped())
+        .spawn()
+        .expect("spawn lace");
+    let err = collect(child.stderr.take().unwrap());
+    let _out = collect(child.stdout.take().unwrap());
+    wait_quiet(&err, Some(b"lace~ "), 150, 8000, &mut child);
+    for k in keys {
+        if let Ok(Some(_)) = child.try_wait() {
+            break;
+        }
+        let _ = master.write_all(&key_bytes(k));
+        let _ = master.flush();
+        if matches!(k, Key::Enter) {
+            wait_quiet(&err, None, 150, 4000, &mut child);
+        }
+    }
+    let t0 = Instant::now();
+    let mut exited = false;
+    while t0.elapsed() < Duration::from_millis(4000) {
+        if let Ok(Some(_)) = child.try_wait() {
+            exited = true;
+            break;
+        }
+        std::thread::sleep(Duration::from_millis(10));
+    }
+    if !exited {
+        let _ = child.kill();
+        let _ = child.wait();
+        return "timeout".into();
+    }
+    std::thread::sleep(Duration::from_millis(30));
+    let text = strip_ansi(&err.lock().unwrap());
+    // `[@…]` followed by a line feed
+    let mut echoes = Vec::new();
+    let mut i = 0;
+    while i + 1 < text.len() {
+        if text[i] == b'[' && text[i + 1] == b'@' {
+            if let Some(j) = text[i..].iter().position(|&b| b == b']' || b == b'\n') {
+                if text[i + j] == b']' {
+                    echoes.push(String::from_utf8_lossy(&text[i + 1..i + j]).to_string());
+                    i += j;
+                }
+            }
+        }
+        i += 1;
+    }
+    let hist_now: Vec<String> = std::fs::read_to_string(&hfile).unwrap_or_default().lines().map(|s| s.to_string()).collect();
+    drop(master);
+    format!("echo={} hist={}", items(&echoes), items(&hist_now))
+}
